@@ -33,6 +33,22 @@ class Opaque:
     return Opaque(self.oid + 100000)
 
 
+import enum
+
+
+class IntMode(enum.IntEnum):
+  """An int whose repr is not a literal (opaque id 21)."""
+  FAST = 3
+
+
+class StrMode(str, enum.Enum):
+  """A str whose repr is not a literal (opaque id 22)."""
+  FAST = 'fast'
+
+
+ENUM_OPAQUES = {21: IntMode.FAST, 22: StrMode.FAST}
+
+
 class ProbeResult:
   """What a probe configurable returns."""
 
@@ -75,6 +91,10 @@ def encode(v, gin=None, session=None):
     return {'d': sorted(([encode(k, gin, session), encode(x, gin, session)] for k, x in v.items()), key=lambda kv: canon(kv[0]))}
   if t in (set, frozenset):
     return {'set': sorted((encode(x, gin, session) for x in v), key=canon)}
+  if t is IntMode:
+    return {'o': 21}
+  if t is StrMode:
+    return {'o': 22}
   if t is Opaque:
     oid = v.oid
     # bound opaque values are deep-copied on delivery (ids below 300): the copy is the same value;
@@ -124,6 +144,8 @@ def decode(j, gin=None):
     if 'set' in j:
       return frozenset(decode(x, gin) for x in j['set'])
     if 'o' in j:
+      if j['o'] in ENUM_OPAQUES:
+        return ENUM_OPAQUES[j['o']]
       return Opaque.get(j['o'])
     if 'req' in j:
       return gin.config.REQUIRED
